@@ -91,6 +91,12 @@ func methods() []method {
 				c.s.RemoveTorrent(t2.ID(), false)
 			}
 		}},
+		{"Session.AddTorrent(explicit id)+RemoveTorrent", func(c *ctx) {
+			// caller-chosen ids (as the registry churn uses): two adds with explicit ids overlap in the id reservation
+			if _, err := c.s.AddTorrent(bytes.NewReader(c.g2.MetaInfo), &torrent.AddTorrentOptions{ID: "mine", Stopped: true}); err == nil {
+				c.s.RemoveTorrent("mine", false)
+			}
+		}},
 		{"Session.CompactDatabase", func(c *ctx) {
 			if atomic.AddInt64(&c.n, 1)%40 == 1 {
 				out := filepath.Join(c.dir, fmt.Sprintf("compact-%d.db", c.n))
